@@ -4,7 +4,6 @@ import (
 	stdErrors "errors"
 	"fmt"
 	"regexp"
-	"strings"
 
 	schema "github.com/jsightapi/jsight-schema-core"
 	"github.com/jsightapi/jsight-schema-core/bytes"
@@ -125,10 +124,8 @@ func (core *JApiCore) buildUserTypes() *jerr.JApiError {
 
 var userTypeNameRegexp = regexp.MustCompile(`@[A-Za-z0-9_-]+`)
 
-var optionalOrNullableRegexp = regexp.MustCompile(`(optional|nullable)\s*:\s*true`)
-
 // maxUserTypeReferenceSteps limits the work of checkUserTypeReferences.
-const maxUserTypeReferenceSteps = 1 << 22
+const maxUserTypeReferenceSteps = 1 << 20
 
 // checkUserTypeReferences walks, from every user type, along all chains of
 // references between the types, as the recursion check of the schema library
@@ -139,21 +136,20 @@ const maxUserTypeReferenceSteps = 1 << 22
 func (core *JApiCore) checkUserTypeReferences() *jerr.JApiError {
 	// Every place where the text of a type names another type counts: the
 	// library follows each of them.
-	refs := make(map[string][]string, core.userTypes.Len())
+	refs := make(map[string][]typeReference, core.userTypes.Len())
 	_ = core.userTypes.Each(func(k string, ut schema.Schema) error {
 		d := core.rawUserTypes.GetValue(k)
 		if _, ok := ut.(*jschema.JSchema); !ok || d == nil || !d.BodyCoords.IsSet() {
 			return nil
 		}
-		for _, line := range strings.Split(d.BodyCoords.Read().String(), "\n") {
-			if optionalOrNullableRegexp.MatchString(line) {
-				// The library does not follow a reference which may be absent.
-				continue
-			}
-			for _, name := range userTypeNameRegexp.FindAllString(line, -1) {
-				if name != k && core.userTypes.Has(name) {
-					refs[k] = append(refs[k], name)
-				}
+		js := ut.(*jschema.JSchema)
+		if _, err := js.UsedUserTypes(); err != nil {
+			// The schema cannot be read: it is never compiled.
+			return nil
+		}
+		for _, r := range typeReferences(js.ASTNode, nil) {
+			if r.name != k && core.userTypes.Has(r.name) {
+				refs[k] = append(refs[k], r)
 			}
 		}
 		return nil
@@ -169,10 +165,13 @@ func (core *JApiCore) checkUserTypeReferences() *jerr.JApiError {
 		}
 		onPath[n] = struct{}{}
 		for _, r := range refs[n] {
-			if _, ok := onPath[r]; ok {
+			if _, ok := onPath[r.name]; ok {
 				continue
 			}
-			if !walk(r) {
+			if r.allOf {
+				steps += allOfReferenceSteps - 1
+			}
+			if !walk(r.name) {
 				return false
 			}
 		}
@@ -187,6 +186,62 @@ func (core *JApiCore) checkUserTypeReferences() *jerr.JApiError {
 		return nil
 	})
 	return adoptError(err)
+}
+
+// typeReference is a place where a schema names a user type.
+type typeReference struct {
+	name string
+
+	// allOf is true for a name in an allOf rule: the library copies the
+	// properties of such a type, which costs much more than following a name.
+	allOf bool
+}
+
+// allOfReferenceSteps is what a step along an allOf reference counts for.
+const allOfReferenceSteps = 16
+
+// typeReferences lists the user type names written in a schema, one entry for
+// every place. A place with the rule optional: true or nullable: true counts
+// like any other: the recursion check of the library does not follow it, but
+// the example of the schema, which is built when the catalog is written, does.
+func typeReferences(n schema.ASTNode, refs []typeReference) []typeReference {
+	add := func(s string, allOf bool) {
+		for _, name := range userTypeNameRegexp.FindAllString(s, -1) {
+			refs = append(refs, typeReference{name: name, allOf: allOf})
+		}
+	}
+	if n.IsKeyShortcut {
+		add(n.Key, false)
+	}
+	if n.TokenType == schema.TokenTypeShortcut {
+		add(n.Value, false)
+	}
+	if n.Rules != nil {
+		n.Rules.EachSafe(func(k string, r schema.RuleASTNode) {
+			eachRuleValue(r, func(s string) { add(s, k == "allOf") })
+		})
+	}
+	for _, c := range n.Children {
+		refs = typeReferences(c, refs)
+	}
+	return refs
+}
+
+// eachRuleValue calls fn with every value the user wrote in the rule.
+func eachRuleValue(r schema.RuleASTNode, fn func(string)) {
+	if r.Source == schema.RuleASTNodeSourceGenerated {
+		// Repeats what stands in the place itself.
+		return
+	}
+	fn(r.Value)
+	if r.Properties != nil {
+		r.Properties.EachSafe(func(_ string, p schema.RuleASTNode) {
+			eachRuleValue(p, fn)
+		})
+	}
+	for _, i := range r.Items {
+		eachRuleValue(i, fn)
+	}
 }
 
 func (core *JApiCore) compileUserTypeWithAllDependencies(name string) error {
